@@ -842,15 +842,7 @@ theorem normMd_of_bad (l : List MdEntry) (ids : List Id) (h : mdBad (some l) ids
 
 theorem castMd_of_other (l : List MdEntry) (h : l.any MdEntry.isOther = true) :
     castMd (some l) = .error .tableException := by
-  have hn : l.all (fun e => e == MdEntry.null) = false := by
-    rw [List.any_eq_true] at h
-    obtain ⟨e, he, ho⟩ := h
-    cases hb : l.all (fun e => e == MdEntry.null) with
-    | false => rfl
-    | true =>
-      have := (List.all_eq_true.mp hb) e he
-      cases e <;> simp [MdEntry.isOther] at ho this
-  simp [castMd, hn, h]
+  simp [castMd, other_not_blank l h, h]
 
 /-- metadata that is not one mapping-or-null per ID stops the constructor, provided the table is
 not empty: the size test fires, or the cast refuses the entry -/
@@ -936,18 +928,7 @@ theorem castMd_normMd_good (md : Option (List MdEntry)) (ids : List Id) (h : mdB
     simp only [normMd, hlen, beq_self_eq_true, Bool.true_and, mdOut]
     cases hb : l.all MdEntry.blank with
     | true => simp [castMd]
-    | false =>
-      have hn : l.all (fun e => e == MdEntry.null) = false := by
-        cases hx : l.all (fun e => e == MdEntry.null) with
-        | false => rfl
-        | true =>
-          have : l.all MdEntry.blank = true := by
-            rw [List.all_eq_true] at hx ⊢
-            intro e he
-            have := hx e he
-            cases e <;> simp [MdEntry.blank] at this ⊢
-          rw [this] at hb; cases hb
-      simp [castMd, hn, hno]
+    | false => simp [castMd, hb, hno]
 
 theorem finish_accept (M : Mat) (obs samp : List Id) (omd smd : Option (List MdEntry))
     (ho : obs ≠ []) (hs : samp ≠ []) (hno : obs.Nodup) (hns : samp.Nodup)
